@@ -31,6 +31,21 @@ def main():
 
     rng = numpy.random.RandomState(ck.seed)
     ck.tlc("AbsMap", "AbsMap.cfg", workers=8)
+    # unbounded: TLAPS proves ExactOnGrid for EVERY Nt and every tone in the
+    # window; TLC checks that the proved operators are the model-checked ones
+    ck.tlc("AbsMapLink", "AbsMapLink.cfg", count=False, workers=4)
+    proved, total = ck.tlaps("AbsMapProof")
+    if proved != total or total < 50:
+        raise MachineryFailure("TLAPS: %d of %d obligations of AbsMapProof "
+                               "proved" % (proved, total))
+    ck.note("TLAPS: all %d obligations of AbsMapProof proved (line lands on "
+            "its axis index for every Nt)" % total)
+    if ck.thorough:
+        bad, tot = ck.tlaps("AbsMapProof", mutate=(
+            "Reversed(n, k) == (Flipped(n, k) + 1) % M(n)",
+            "Reversed(n, k) == Flipped(n, k)"))
+        if bad == tot:
+            raise MachineryFailure("TLAPS proved the displaced pipeline")
     ck.tlc("AbsMap", "AbsMap_asis.cfg", count=False,
            expect_violation="LineOnItsEnergy")
 
